@@ -23,9 +23,8 @@ Qed.
 
 Lemma f32_of_f64_range x s : f32_of_f64 x = Some s -> 0 <= s < 2 ^ 32.
 Proof.
-  unfold f32_of_f64. destruct (decode 52 11 x) as [sg|sg|sg p|sg m e]; intros E.
-  1-3: apply fits_some in E as [-> H]; exact H.
-  destruct (round_to 23 8 sg m e); try discriminate; apply fits_some in E as [-> H]; exact H.
+  unfold f32_of_f64. destruct (UtilsF32.narrow64 x) as [r|]; intros E; [|discriminate].
+  apply fits_some in E as [-> H]; exact H.
 Qed.
 
 Lemma place_length pos : forall l s, length (place pos l s) = length s.
